@@ -70,7 +70,7 @@ for r, it in zip(results, items):
         shutil.copy(os.path.join(it[2], 'patch.diff'), dst)
         shutil.copy(os.path.join(it[2], r['demo']), dst)
         meta = json.load(open(os.path.join(it[2], 'meta.json')))
-        meta['confirmed_by'] = {'what_i_ran': 'patch applied to a scratch copy of /repo HEAD (e4b5f23 + nothing else); existing suite: `cd <copy> && /venv/bin/python -m pytest -q -p no:cacheprovider --timeout=900 --continue-on-collection-errors`; demo: `cd <copy> && PYTHONPATH=. /venv/bin/python %s` in the unchanged and the changed copy' % r['demo'],
+        meta['confirmed_by'] = {'what_i_ran': 'patch applied to a scratch copy of /repo HEAD (bcc5f54); existing suite: `cd <copy> && /venv/bin/python -m pytest -q -p no:cacheprovider --timeout=900 --continue-on-collection-errors`; demo: `cd <copy> && PYTHONPATH=. /venv/bin/python %s` in the unchanged and the changed copy' % r['demo'],
                                 'suite_with_change': r['suite'], 'demo_rc_unchanged': r['demo_clean_rc'], 'demo_rc_changed': r['demo_changed_rc'],
                                 'demo_output_changed_tail': r['demo_changed_tail']}
         json.dump(meta, open(os.path.join(dst, 'meta.json'), 'w'), indent=1)
